@@ -692,7 +692,7 @@ fn selftest(rep: &mut Report) {
 
 pub fn run(ctx: &Ctx, rep: &mut Report) {
     selftest(rep);
-    let n = if ctx.is_miri() { ctx.cases(16, 640) } else { ctx.cases(60_000, 2_000_000) };
+    let n = if ctx.is_miri() { ctx.cases(16, 640) } else { ctx.cases(60_000, 500_000) };
     for case in ctx.case_range(n) {
         rep.current_case = case;
         let mut rng = ctx.rng("c16", case);
